@@ -392,6 +392,14 @@ func registerIntrinsics(e *Engine) {
 	})
 	reg("vDocument", func(x *Exec, a []Value) Value { return x.makeDocument(a[0]) })
 	reg("vCallLog", func(x *Exec, a []Value) Value { return mkStrSlice(x.calllog) })
+	// vMarshalled(i): the value handed to the i-th json.MarshalIndent call of this path (the JSON text itself is not modelled)
+	reg("vMarshalled", func(x *Exec, a []Value) Value {
+		i := cint(x, a[0])
+		if i < 0 || i >= len(x.marshalled) {
+			return nilIface
+		}
+		return x.marshalled[i]
+	})
 
 	registerLibModels(e)
 	registerStringModels(e)
@@ -715,6 +723,7 @@ func registerLibModels(e *Engine) {
 	always("github.com/kr/pretty.Sprint", func(x *Exec, a []Value) Value { return mkStr("") })
 	// pretty-printed JSON text is never inspected by the planners: arbitrary (here empty) bytes
 	always("encoding/json.MarshalIndent", func(x *Exec, a []Value) Value {
+		x.marshalled = append(x.marshalled, a[0]) // the harness may ask what was handed over (vMarshalled)
 		return TupleVal{&SliceVal{A: &ArrayObj{}, Len: 0, Cap: 0}, nilIface}
 	})
 	// json.Marshal of a concrete scalar (strings, numbers, booleans): the real function is called
